@@ -132,9 +132,25 @@ def _arith_ops():
     return _ARITH_OPS
 
 
+_LA_MEMO = {}     # term id -> (term kept alive, is_length_arith)
+_ABS_MEMO = {}    # term id -> (term kept alive, length abstraction or None, side facts)
+
+
 def is_length_arith(t, _memo=None):
     """t is built from integer arithmetic, propositional structure, integer/boolean constants and
     lengths of strings only (the strings themselves are not inspected)."""
+    i = t.get_id()
+    ent = _LA_MEMO.get(i)
+    if ent is not None:
+        return ent[1]
+    r = _is_length_arith(t)
+    if len(_LA_MEMO) > 400000:
+        _LA_MEMO.clear()
+    _LA_MEMO[i] = (t, r)
+    return r
+
+
+def _is_length_arith(t, _memo=None):
     if _memo is None:
         _memo = {}
     i = t.get_id()
@@ -155,7 +171,7 @@ def is_length_arith(t, _memo=None):
             # arguments are not inspected, the solver keeps congruence for syntactically equal arguments)
             r = True
         elif k in _arith_ops():
-            r = all(is_length_arith(c, _memo) for c in t.children())
+            r = all(is_length_arith(c) for c in t.children())
     _memo[i] = r
     return r
 
@@ -256,6 +272,20 @@ def length_abstraction(t, side=None):
     what the abstraction entails is entailed."""
     if side is None:
         side = []
+    ent = _ABS_MEMO.get(t.get_id())
+    if ent is not None:
+        side.extend(ent[2])
+        return ent[1]
+    mine = []
+    r = _length_abstraction(t, mine)
+    if len(_ABS_MEMO) > 400000:
+        _ABS_MEMO.clear()
+    _ABS_MEMO[t.get_id()] = (t, r, tuple(mine))
+    side.extend(mine)
+    return r
+
+
+def _length_abstraction(t, side):
     if is_length_arith(t):
         return _lia(t, side)
     if z3.is_quantifier(t) or not z3.is_app(t) or not z3.is_bool(t):
@@ -419,7 +449,14 @@ class PathState:
         if len(cs) > 1 and all(self.is_established(c) for c in cs):
             self.established[i] = t
             return True
-        if not _has_quantifier(t) and self.must_hold(t):
+        if self.ghost.get('__align__'):
+            # (string alignment on, pyvc.strings: many more pieces are shared and this question is asked very often:
+            # decided on the length abstraction only, never by the string solver -- "not established" is always a
+            # sound answer, it only means a fresh decomposition instead of a shared one)
+            ok = not _has_quantifier(t) and is_length_arith(t) and self.must_hold_lengths(t)
+        else:
+            ok = not _has_quantifier(t) and self.must_hold(t)
+        if ok:
             self.established[i] = t
             return True
         self._not_established[i] = len(self.pc)
@@ -716,6 +753,8 @@ class PathState:
         elif self._fork_by_lengths(t) is not None:
             r = 'T' if self._fork_by_lengths(t)[0] else 'N'
             self._record_known(t, r == 'T')
+        elif self.ghost.get('__align__'):
+            r = 'U'      # (string alignment on: operands of and / or are only decided by lengths, see is_established)
         elif self.must_hold(t, SITE_TIMEOUT_MS):
             r = 'T'
             self._record_known(t, True)
